@@ -21,6 +21,9 @@ type obsFunc func(input string) string
 var gens = map[string]genFunc{}
 var observers = map[string]obsFunc{}
 
+// subcommands are helper modes of the binary itself (e.g. `verifharness rlimit <bytes> <cmd...>`)
+var subcommands = map[string]func(args []string){}
+
 type caseWriter struct{ w *bufio.Writer }
 
 // add observes the implementation on (op, input) and writes the case line
@@ -36,6 +39,12 @@ func (c *caseWriter) add(id, op, input string) string {
 }
 
 func main() {
+	if len(os.Args) > 1 {
+		if f, ok := subcommands[os.Args[1]]; ok {
+			f(os.Args[2:])
+			return
+		}
+	}
 	if len(os.Args) < 4 && !(len(os.Args) == 2 && os.Args[1] == "replay") {
 		fmt.Fprintln(os.Stderr, "usage: verifharness <gen> <seed> <n> [args...]")
 		os.Exit(2)
